@@ -35,7 +35,7 @@ fn gen(rng: &mut Rng, _i: u64) -> String {
 		let k = rng.below(6) as usize;
 		for _ in 0..k { data.push(rng.range(0x41, 0x5a) as u8); }
 	}
-	let pick = |rng: &mut Rng| -> u8 { match rng.below(8) { 0 => 1, 1 => 2, 2 => 3, 3 => 6, 4 => 255, 5 => 0, _ => rng.range(1, 10) as u8 } };
+	let pick = |rng: &mut Rng| -> u8 { match rng.below(10) { 0 => 1, 1 => 2, 2 => 3, 3 => 6, 4 => 255, 5 => 0, 6 => rng.range(11, 254) as u8, 7 => *rng.pick(&[127u8, 128, 254, 250, 16, 32, 64]), _ => rng.range(1, 10) as u8 } };
 	let min = pick(rng);
 	let minnul = pick(rng);
 	let strict = rng.chance(1, 2);
